@@ -285,8 +285,16 @@ impl BaseBindingsGenerator for ZodBindingsGenerator {
                 &mut event_types,
             );
 
-            // Add event payload types to used_structs
-            for type_name in event_types {
+            // Add event payload types to used_structs, together with everything they
+            // reference: a payload struct whose field types are used nowhere else would
+            // otherwise mention declarations that are never emitted
+            let mut with_nested = event_types.clone();
+            self.collector.discover_nested_dependencies(
+                &event_types,
+                discovered_structs,
+                &mut with_nested,
+            );
+            for type_name in with_nested {
                 if let Some(struct_info) = discovered_structs.get(&type_name) {
                     used_structs.insert(type_name.clone(), struct_info.clone());
                 }
